@@ -388,7 +388,10 @@ class SymExec:
                         off = _r(base.off) + _r(idx)
                         ci = _const_int(off)
                         return Ptr(base.base, ci if ci is not None else off)
-                return Addr(self.lvalue(ks[0], st))
+                key = self.lvalue(ks[0], st)
+                if isinstance(key, tuple) and len(key) == 2 and not isinstance(key[0], tuple):
+                    return Ptr(key[0], key[1] if isinstance(key[1], int) else _r(Poly.var(key[1])) if isinstance(key[1], str) and key[1].isidentifier() else key[1])    # &v[k] of a vector / operator[]
+                return Addr(key)
             if op == "*":
                 return st.get(self.lvalue(n, st))
             if op in ("++", "--"):
